@@ -638,7 +638,136 @@ fn one_diff(rep: &mut Report, t: &mut Tally, kind: DiffKind, since: bool, u: Uni
     rep.sample(opname, || json!({"op": opname, "case": case(), "exact_diff_ns": d.to_string(), "expected_total_ns": exp.to_string()}));
 }
 
+// ---- until / since of plain dates with a calendar smallest unit and an increment
+//
+// The value being rounded is the exact (rational) number of weeks / months / years between the dates, counted from the
+// receiver as the specification does; the two neighbouring multiples and the choice between them come from the
+// add-and-remeasure model of C08 (refmodel::relround), which uses exact rationals.
+fn calendar_diffs(rep: &mut Report, t: &mut Tally) {
+    use crate::refmodel::civil::*;
+    use crate::refmodel::relround::{round_relative, RelErr};
+    let mut rng = rep.cfg.rng("calendar-diffs");
+    let n = rep.cfg.budget(160_000, 8_000_000);
+    for _ in 0..n {
+        let sub = rng.u64();
+        if !rep.begin() {
+            continue;
+        }
+        let mut r = Rng::new(sub, "calendar-diff", 0);
+        let day0 = if r.chance(1, 6) { r.range(-99_000_000, 99_000_000) } else { r.range(-30_000, 60_000) };
+        let (y0, m0, _) = civil_from_days(day0);
+        // month ends, leap days and the 1st are where the month lengths on the two sides differ
+        let day0 = if r.chance(1, 3) { days_from_civil(y0, m0, *r.pick(&[1u8, 28, 29, 30, 31]).min(&dim(y0, m0))) } else { day0 };
+        let span = *r.pick(&[40i64, 400, 1_500, 40_000]);
+        let day1 = day0 + r.range(-span, span);
+        let smallest = *r.pick(&[Unit::Week, Unit::Month, Unit::Month, Unit::Year]);
+        let largest = match smallest {
+            Unit::Week => *r.pick(&[Unit::Week, Unit::Month, Unit::Year]),
+            Unit::Month => *r.pick(&[Unit::Month, Unit::Year]),
+            _ => Unit::Year,
+        };
+        let inc = *r.pick(&[1u32, 2, 2, 3, 4, 5, 6, 7, 10, 12, 25]);
+        let m = *r.pick(&ALL_MODES);
+        let since = r.bool();
+        let (Out::Ok(a), Out::Ok(b)) = (call(|| pdate_from_days(day0)), call(|| pdate_from_days(day1))) else { continue };
+        // since(): the negated difference rounded with the mirrored mode, negated again
+        let delta = (day1 - day0) as f64;
+        let v = [0.0, 0.0, 0.0, if since { -delta } else { delta }, 0.0, 0.0, 0.0, 0.0, 0.0, 0.0];
+        let exp = if since {
+            // receiver.since(other) = -(other measured from receiver, rounded with the negated mode)
+            round_relative(day0, &[0.0, 0.0, 0.0, delta, 0.0, 0.0, 0.0, 0.0, 0.0, 0.0], largest, smallest, inc as i128, m.mirrored()).map(|f| {
+                let mut g = f;
+                for x in g.iter_mut() {
+                    if *x != 0.0 {
+                        *x = -*x;
+                    }
+                }
+                g
+            })
+        } else {
+            round_relative(day0, &v, largest, smallest, inc as i128, m)
+        };
+        let st = diff_settings(Some(largest), Some(smallest), Some(m.to_lib()), Some(inc));
+        let opname = if since { "PlainDate::since" } else { "PlainDate::until" };
+        let got = call(|| if since { a.since(&b, st) } else { a.until(&b, st) }).map(|d| dur_fields(&d));
+        t.evals += 1;
+        let (ya, ma, da) = civil_from_days(day0);
+        let (yb, mb, db) = civil_from_days(day1);
+        let case = || json!({"receiver": format!("{}-{:02}-{:02}", fmt_year(ya), ma, da), "other": format!("{}-{:02}-{:02}", fmt_year(yb), mb, db), "largest": unit_name(largest), "smallest": unit_name(smallest), "inc": inc, "mode": m.name()});
+        let shape = format!("({}->{},{}{},{})", unit_name(largest), unit_name(smallest), if inc > 1 { "inc>1" } else { "inc=1" }, if day1 < day0 { ",backwards" } else { "" }, if da >= 28 { "month-end-receiver" } else { "plain-receiver" });
+        match (&exp, &got) {
+            (Err(RelErr::Undecided(_)), _) => rep.hit("calendar-diff/undecided"),
+            (_, g) if g.is_broken() => rep.inconclusive("C07.nearest", "panic"),
+            (Ok(e), Out::Ok(g)) if e == g => {
+                rep.hit("calendar-diff/agreed");
+                rep.nontrivial(fp!(31u64, day0 as u64, day1 as u64, inc as u64, m as u64, since, smallest as u64, largest as u64));
+            }
+            (Err(RelErr::Range), Out::Err(temporal_rs::error::ErrorKind::Range, _)) => rep.hit("calendar-diff/range"),
+            _ => rep.violation("C07.nearest", opname, &shape, case(), got.show_with(|g| format!("{g:?}")), format!("{exp:?}")),
+        }
+        rep.sample(&format!("cd{}{}", unit_name(smallest), since), || json!({"op": opname, "case": case(), "expected": format!("{exp:?}")}));
+    }
+}
+
 // ---- toString with fractional-digit precision / smallestUnit
+
+/// Reads `[-]PT[nH][nM][n[.f]S]` (what a time-only duration prints as): (signed total ns, number of fraction digits).
+fn read_time_duration(text: &str) -> Option<(i128, i32)> {
+    let (neg, rest) = match text.strip_prefix('-') {
+        Some(r) => (true, r),
+        None => (false, text),
+    };
+    let rest = rest.strip_prefix("PT")?;
+    let (mut total, mut digits, mut num, mut frac, mut in_frac, mut any, mut last) = (0i128, 0i32, 0i128, 0i128, false, false, 0u8);
+    let mut fd = 0i32;
+    for c in rest.bytes() {
+        match c {
+            b'0'..=b'9' => {
+                if in_frac {
+                    frac = frac * 10 + (c - b'0') as i128;
+                    fd += 1;
+                } else {
+                    num = num.checked_mul(10)?.checked_add((c - b'0') as i128)?;
+                }
+                any = true;
+            }
+            b'.' if !in_frac => in_frac = true,
+            b'H' | b'M' | b'S' => {
+                let order = match c {
+                    b'H' => 1,
+                    b'M' => 2,
+                    _ => 3,
+                };
+                if !any || order <= last || (in_frac && c != b'S') || fd > 9 {
+                    return None;
+                }
+                last = order;
+                let unit = match c {
+                    b'H' => 3_600_000_000_000i128,
+                    b'M' => 60_000_000_000,
+                    _ => 1_000_000_000,
+                };
+                total = total.checked_add(num.checked_mul(unit)?)?;
+                if in_frac {
+                    total += frac * 10i128.pow((9 - fd) as u32);
+                    digits = fd;
+                }
+                num = 0;
+                frac = 0;
+                in_frac = false;
+                any = false;
+            }
+            _ => return None,
+        }
+    }
+    if any || in_frac || last == 0 {
+        return None;
+    }
+    if neg && total == 0 {
+        return None;
+    }
+    Some((if neg { -total } else { total }, digits))
+}
 
 fn tostring(rep: &mut Report, t: &mut Tally) {
     let mut rng = rep.cfg.rng("tostring");
@@ -764,6 +893,37 @@ fn tostring(rep: &mut Report, t: &mut Tally) {
                 }
                 rep.sample(&format!("ts2{}", pname(p)), || json!({"op": "Instant::to_ixdtf_string", "case": case_base(ns.to_string()), "expected_utc_ns": exp.to_string()}));
             }
+            4 => {
+                // Duration (time fields only, either sign): the signed total is rounded, not its magnitude
+                if matches!(p, P::Minute | P::Unit(Unit::Minute)) {
+                    return;
+                }
+                let kmax = *rng.pick(&[3i128, 3_600, 86_400 * 400, 4_000_000_000]) * 1_000_000_000 / s;
+                let k = rng.range128(0, kmax.max(1));
+                let mag = k * s + o;
+                let total = if rng.bool() { -mag } else { mag };
+                let (exp, pos) = round_int(total, s, m);
+                note(rep, t, "Duration::as_temporal_string", pos, fp!(24u64, total as u64, (total >> 64) as u64, s as u64, m as u64));
+                // spread the magnitude over the time fields (sometimes unbalanced: all of it in the seconds / nanoseconds field)
+                let sg = if total < 0 { -1.0 } else { 1.0 };
+                let a = total.abs();
+                let v: [f64; 10] = match rng.below(3) {
+                    0 if a < (1i128 << 53) => [0.0, 0.0, 0.0, 0.0, 0.0, 0.0, 0.0, 0.0, 0.0, sg * a as f64],
+                    1 if a % 1_000 == 0 && a / 1_000 < (1i128 << 53) => [0.0, 0.0, 0.0, 0.0, 0.0, 0.0, 0.0, 0.0, sg * (a / 1_000) as f64, 0.0],
+                    _ => [0.0, 0.0, 0.0, 0.0, sg * (a / 3_600_000_000_000) as f64, sg * (a / 60_000_000_000 % 60) as f64, sg * (a / 1_000_000_000 % 60) as f64, sg * (a / 1_000_000 % 1000) as f64, sg * (a / 1000 % 1000) as f64, sg * (a % 1000) as f64],
+                };
+                let res = call(|| dur10(v)?.as_temporal_string(opts_of(p, m)));
+                let ok = match &res {
+                    Out::Ok(text) => matches!(read_time_duration(text), Some((g, gd)) if g == exp && gd == nd.max(0)),
+                    _ => false,
+                };
+                if res.is_broken() {
+                    rep.inconclusive("C07.nearest", "panic");
+                } else if !ok {
+                    rep.violation("C07.nearest", "Duration::as_temporal_string", &shape(&pname(p), s, pos, total), case_base(format!("{v:?}")), res.show(), format!("a duration of {exp} ns printed with {} fraction digits", nd.max(0)));
+                }
+                rep.sample(&format!("ts4{}", pname(p)), || json!({"op": "Duration::as_temporal_string", "case": case_base(format!("{v:?}")), "expected_total_ns": exp.to_string()}));
+            }
             _ => {
                 // ZonedDateTime over a fixed offset
                 let zi = rng.below(tzs.len() as u64) as usize;
@@ -797,7 +957,7 @@ fn tostring(rep: &mut Report, t: &mut Tally) {
     for &p in &precs {
         let (s, _) = step_of(p);
         for m in ALL_MODES {
-            for kind in 0..4u64 {
+            for kind in 0..5u64 {
                 cell += 1;
                 let mine = rep.cfg.mine(cell);
                 for o in offsets(s, &mut rng) {
@@ -814,7 +974,7 @@ fn tostring(rep: &mut Report, t: &mut Tally) {
     for _ in 0..nrand {
         let p = *rng.pick(&precs);
         let m = *rng.pick(&ALL_MODES);
-        let kind = rng.below(4);
+        let kind = rng.below(5);
         let mut sub = Rng::new(rng.u64(), "ts", 1);
         if rep.begin() {
             run_one(rep, t, &mut sub, p, m, kind, None, false);
@@ -829,6 +989,7 @@ pub fn run(rep: &mut Report) {
     datetime_round(rep, &mut t);
     instant_round(rep, &mut t);
     diffs(rep, &mut t);
+    calendar_diffs(rep, &mut t);
     tostring(rep, &mut t);
     rep.evaluations += t.evals;
     rep.add("public/evaluations", t.evals);
